@@ -1073,6 +1073,10 @@ impl BigInt {
     /// ```
     pub fn modinv(&self, modulus: &Self) -> Option<Self> {
         let result = self.data.modinv(&modulus.data)?;
+        if result.is_zero() {
+            // Only possible for `|modulus| == 1`, where zero is the inverse in `[0, 1)` and `(-1, 0]`.
+            return Some(Self::ZERO);
+        }
         // The sign of the result follows the modulus, like `mod_floor`.
         let (sign, mag) = match (self.is_negative(), modulus.is_negative()) {
             (false, false) => (Plus, result),
